@@ -580,6 +580,84 @@ def falsy_variants(obj, fname):
     return res
 
 
+def is_listlike(v):
+    return isinstance(v, (list, tuple)) or type(v).__name__ == "NamedItemList"
+
+
+def kinds_of(items):
+    """element kinds of a list in order of first appearance (class names: OdxLinkRef vs TableRow, parameter classes, ...)"""
+    out = []
+    for x in items:
+        n = type(x).__name__
+        if n not in out:
+            out.append(n)
+    return out
+
+
+MAX_ORDER_VARIANTS = 8
+
+
+def order_variants(obj, fname):
+    """re-orderings of a list-valued field with at least two items.  The document order of the children of an element is
+    part of what the parser reads (lists keep their order in the images), so write -> load must return every order the
+    in-memory database can have, not only the orders the parser itself produces: a parser (or template) that groups the
+    children by kind, sorts or de-duplicates them maps all databases it loads onto fixpoints of write -> load and is
+    invisible to round trips that start from a loaded document.
+      * lists that mix element kinds (TABLE-ROW-REF | TABLE-ROW, DIAG-COMM-REF | DIAG-SERVICE | SINGLE-ECU-JOB,
+        DTC-REF | DTC, the parameter classes of PARAMS): every stable partition "kind K first" / "kind K last", and the
+        strict alternation of the two most frequent kinds
+      * every list: reversed, rotated by one, first two swapped"""
+    cur = getattr(obj, fname, None)
+    if not is_listlike(cur) or len(cur) < 2 or fname in ("ref_docs", "doc_fragments"):
+        return []
+    items = list(cur)
+    mk = type(cur)
+    cands = []
+    kinds = kinds_of(items)
+    if len(kinds) > 1:
+        for kd in kinds:
+            a, b = [x for x in items if type(x).__name__ == kd], [x for x in items if type(x).__name__ != kd]
+            cands.append((f"order-{kd}-first", a + b))
+            cands.append((f"order-{kd}-last", b + a))
+        by = sorted(kinds, key=lambda kd: -sum(1 for x in items if type(x).__name__ == kd))[:2]
+        a, b = [x for x in items if type(x).__name__ == by[0]], [x for x in items if type(x).__name__ == by[1]]
+        rest = [x for x in items if type(x).__name__ not in by]
+        inter = [x for pair in zip(a, b) for x in pair] + a[len(b):] + b[len(a):]
+        cands.append(("order-interleaved", inter + rest))
+        cands.append(("order-interleaved", [x for pair in zip(b, a) for x in pair] + b[len(a):] + a[len(b):] + rest))
+    cands.append(("order-reversed", items[::-1]))
+    cands.append(("order-rotated", items[1:] + items[:1]))
+    cands.append(("order-swapped", [items[1], items[0]] + items[2:]))
+    seen, out = {tuple(id(x) for x in items)}, []
+    for kind, xs in cands:
+        key = tuple(id(x) for x in xs)
+        if key in seen:
+            continue
+        seen.add(key)
+        out.append((kind, mk(xs)))
+    # heterogeneous partitions first, but never without the plain reversal
+    if len(out) > MAX_ORDER_VARIANTS:
+        keep = out[:MAX_ORDER_VARIANTS - 1]
+        rev = [v for v in out if v[0] == "order-reversed" and v not in keep]
+        out = keep + (rev[:1] or out[MAX_ORDER_VARIANTS - 1:MAX_ORDER_VARIANTS])
+    return out
+
+
+def order_sites(db):
+    """[(path, class, field, kinds, length)] — the list-valued public fields with at least two items below a database"""
+    out = []
+    for path, o in db_objects(db):
+        cls = type(o).__name__
+        for f in public_fields(o):
+            v = getattr(o, f.name, None)
+            if not is_listlike(v) or len(v) < 2 or f.name in ("ref_docs", "doc_fragments"):
+                continue
+            if (cls, f.name) in DERIVED_FIELDS or is_context(cls, f.name):
+                continue
+            out.append((path, cls, f.name, tuple(sorted(kinds_of(v))), len(v)))
+    return out
+
+
 def encode_value(kind, v):
     """JSON description of a perturbation value (for witnesses / messages)"""
     if v is None or isinstance(v, (bool, int, float, str)):
@@ -658,7 +736,64 @@ def baseline(db):
     return {(d["path"], d["left"], d["right"]) for d in diff(db_tree(db, mask=True), db_tree(db2, mask=True), limit=2000)}
 
 
+ROOT_NAMES = {"dlc": ".diag_layer_containers", "cs": ".comparam_subsets", "cspec": ".comparam_specs"}
+
+
+def image_path(path):
+    """object path (db_objects) -> path of the same object in a database image (diff)"""
+    for short, long in ROOT_NAMES.items():
+        if path.startswith(short + "["):
+            return long + path[len(short):]
+    return path
+
+
+def moved_baseline(base, path, fname, perm):
+    """the baseline differences (which are keyed by path) after the items of the list `fname` of the object at `path` were
+    re-ordered: new position j holds the item of old position perm[j].  Only the index in the paths below that list
+    changes; nothing is added to or removed from the baseline."""
+    import re
+    if not base:
+        return base
+    prefix = image_path(path) + "." + fname + "["
+    inv = {old: new for new, old in enumerate(perm) if old is not None}
+    out = set()
+    for p, left, right in base:
+        if p.startswith(prefix):
+            m = re.match(r"(\d+)\]", p[len(prefix):])
+            if m and int(m.group(1)) in inv:
+                p = prefix + str(inv[int(m.group(1))]) + p[len(prefix) + len(m.group(1)):]
+        out.add((p, left, right))
+    return out
+
+
+def typed_by_owner(db, path, obj, fname, vs):
+    """BASE-DATA-TYPE of the DIAG-CODED-TYPE of a CODED-CONST / NRC-CONST parameter: the parser types CODED-VALUE(S) with it
+    (`base_data_type.from_string`), so a new base data type of another Python type together with the unchanged coded
+    value is an object no document describes (float 0.0 under A_UNICODE2STRING is written "0.0" and read as a string).
+    Such a parameter only gets base data types that keep the Python type of its coded values."""
+    if fname != "base_data_type" or "." not in path:
+        return vs
+    try:
+        owner = resolve_path(db, path.rsplit(".", 1)[0])
+    except Exception:
+        return vs
+    if getattr(owner, "coded_value", None) is None and not getattr(owner, "coded_values", None):
+        return vs
+    cur = getattr(obj, fname)
+    return [(kd, v) for kd, v in vs if getattr(v, "python_type", None) is getattr(cur, "python_type", None)]
+
+
 def apply_and_roundtrip(db, path, fname, k, pool, variant_index=None, base=frozenset(), family="default"):
+    """(see _apply_and_roundtrip) + `tried_values`: every value that was written, for the families that go through all
+    their variants (falsy, order) — one evaluated case each"""
+    hist = []
+    r = _apply_and_roundtrip(db, path, fname, k, pool, variant_index, base, family, hist)
+    if family in ("falsy", "order"):
+        r["tried_values"] = hist
+    return r
+
+
+def _apply_and_roundtrip(db, path, fname, k, pool, variant_index, base, family, hist):
     """perturb one field of the object at `path`, write the database, load the archive (without resolving
     references) and compare the dataclass images.  The field (and anything touched with it) is restored.
 
@@ -673,8 +808,12 @@ def apply_and_roundtrip(db, path, fname, k, pool, variant_index=None, base=froze
         vs = [("docref", v)] if v else []
     elif family == "falsy":
         vs = falsy_variants(obj, fname)
+    elif family == "order":
+        vs = order_variants(obj, fname)
     else:
         vs = variants(obj, fname, k, pool)
+        vs = typed_by_owner(db, path, obj, fname, vs)
+    order_base = None
     if variant_index is not None:
         vs = vs[variant_index:variant_index + 1] if variant_index < len(vs) else []
         base_index = variant_index
@@ -694,12 +833,17 @@ def apply_and_roundtrip(db, path, fname, k, pool, variant_index=None, base=froze
             _quiet_refresh(db)              # derived values (e.g. TableRow.key) follow the perturbed field
             pdx, err = write_db(db)
             val = encode_value(kind, new)
+            if family == "order":       # the permutation (indices into the original list) and the kinds in the new order
+                pos = {id(x): i for i, x in enumerate(old)}
+                order_base = moved_baseline(base, path, fname, [pos.get(id(x)) for x in new])
+                val = {"kind": kind, "value": "order " + str([pos.get(id(x)) for x in new]) + " " + str([type(x).__name__ for x in new][:12])}
+            hist.append((kind, str(val.get("value"))))
             if pdx is None:
                 last = {"status": "write-raises", "kind": kind, "diffs": [], "tried": n + 1, "why": err, "value": val, "variant": n}
                 if kind in DONOR_KINDS:
                     last["status"], last["why"] = "skipped", "donor-unsuitable:" + str(err)
                     continue
-                if kind.endswith("absent") or kind.endswith("present") or kind.startswith("meta") or kind.startswith("falsy") or kind in ("flip", "docref", "list-shorter"):
+                if kind.endswith("absent") or kind.endswith("present") or kind.startswith("meta") or kind.startswith("falsy") or kind.startswith("order") or kind in ("flip", "docref", "list-shorter"):
                     return last
                 continue
             db2, err = load_pdx_bytes(pdx, refresh=False)
@@ -716,9 +860,10 @@ def apply_and_roundtrip(db, path, fname, k, pool, variant_index=None, base=froze
                 want = tree(new)
                 d = [] if got == want else [{"path": path + ".ref_docs", "cls": type(obj).__name__, "field": "ref_docs", "left": brief(want), "right": brief(got)}]
             else:
-                d = [x for x in diff(db_tree(db, mask=True), db_tree(db2, mask=True), limit=400) if (x["path"], x["left"], x["right"]) not in base]
+                d = [x for x in diff(db_tree(db, mask=True), db_tree(db2, mask=True), limit=400)
+                     if (x["path"], x["left"], x["right"]) not in (base if order_base is None else order_base)]
             res = {"status": "diff" if d else "same", "kind": kind, "diffs": d[:6], "tried": n + 1, "value": val, "variant": n}
-            if family == "falsy" and not d and n + 1 - base_index < len(vs):
+            if family in ("falsy", "order") and not d and n + 1 - base_index < len(vs):
                 last = res
                 continue
             return res
